@@ -253,6 +253,15 @@ def rule_loop_coverage(ctx, cfg='prod-all', fns=LOOP_FNS, follow_prefix=None):
                 cover = start == (None, 0) and zf.prove_le(ln, end, s.block)
                 if not cover and b.param_index(name) is None:
                     cover = None      # a local helper vector (not a message vector of the interface): reported, not armed
+                if not cover and cover is not None and not b.j.get('pub'):
+                    # a parameter of a private function: armed only if it is (part of) a parameter of a public entry point, i.e. a vector
+                    # of the interface; a vector its callers build themselves (random masks, scratch lists) is reported, not armed
+                    import vecpos
+                    tr = vecpos.Tracer(ctx, cfg, ('calculate_random_scalars', 'seeded_random_scalars'))
+                    steps = [('f', x) for x in ln[0][4:].split('.')[1:]]
+                    tr.trace(fn, b.param_index(name), steps)
+                    if tr.terminals and not any(k[0] == 'param' for k in tr.terminals):
+                        cover = None
                 yield Ob('RF-P', '%s#covers:%s' % (fn, s.desc), cover, 'the loop visits every element of the vector it folds (no message skipped)', b.span,
                          fact={'range': (tfmt(start), tfmt(end)), 'vector_len': tfmt(ln)}, expected='0 .. len')
         # iterator forms over slice / Vec parameters
@@ -566,6 +575,27 @@ def rule_index_translation(ctx, cfg='prod-all'):
                     continue
             addend = closure_addend(zf, czf)
             which = cb.path.split('::')[-1]
+        if addend is None:
+            # loop form: `for j in &commitment_indexes { out.push(j.checked_add(X)?) }` - an element of the list plus X, in this body
+            def from_list(es):
+                nm = es[5:]
+                if nm == 'disclosed_commitment_indexes':
+                    return True
+                if nm.startswith('_') and nm[1:].isdigit():
+                    l0 = int(nm[1:])
+                    if _trace_identity(fd, b, {'k': 'copy', 'pl': {'l': l0}})[0] == kc:
+                        return True
+                    ps = {strip(x)[1] for x in fd.read(l0, ()) if strip(x)[0] == 'p' and 'usize]' in b.local_ty(strip(x)[1])}
+                    return ps == {kc}
+                return False
+            for bi, t in b.calls():
+                if not (t.get('callee') or '').endswith(('::checked_add', '::wrapping_add', '::saturating_add')) or len(t['args']) != 2:
+                    continue
+                ta, tb = zf.term_op(t['args'][0]), zf.term_op(t['args'][1])
+                for x, y in ((ta, tb), (tb, ta)):
+                    if x is not None and x[0] is not None and x[1] == 0 and x[0] in zf.elem_of and from_list(zf.elem_of[x[0]]):
+                        addend = _linear(zf, y)
+                        which = 'loop L%s' % t.get('line')
         # what L is in this function
         def is_L(sym):
             if is_len:
